@@ -532,3 +532,53 @@ Lemma oserror_swallowed :
   o_raw res = Some AppOSError /\ o_wrote_header1 res = false
   /\ o_served_500 res = false /\ o_writes res = [] /\ o_close res = true.
 Proof. vm_compute. repeat split; reflexivity. Qed.
+
+(* ---- corollaries in the form used by Props/C09.v ----------------------------- *)
+
+Section Corollaries.
+Variable cap : str -> str.
+Variable lower : str -> str.
+
+Theorem contained_partial c r a disc e :
+  let res := channel_service cap lower c r a disc in
+  o_raw res = Some e ->
+  exn_eqb e ClientDisconnected = false ->
+  is_Exception e = true ->
+  (is_OSError e = false \/ c_log_socket_errors c = true) ->
+  (o_wrote_header1 res = true ->
+     o_close res = true /\ o_next res = false /\ o_escaped res = None
+     /\ o_served_500 res = false /\ o_writes res = o_writes1 res)
+  /\ (o_wrote_header1 res = false ->
+     o_served_500 res = true
+     /\ (o_escaped res = None -> o_close res = true /\ o_next res = false)
+     /\ (forall e1, o_escaped res = Some e1 -> e1 = UnicodeEncodeError)).
+Proof.
+  cbn zeta. intros Hraw Hcd Hex Hos.
+  pose proof (service_outcome cap lower c r disc a) as H. unfold outcome_spec in H.
+  rewrite Hraw, Hcd, Hex in H. cbn [negb] in H.
+  assert (Hsw : is_OSError e && negb (c_log_socket_errors c) = false).
+  { destruct Hos as [->| ->]; [reflexivity|]. destruct (is_OSError e); reflexivity. }
+  rewrite Hsw in H.
+  destruct (o_wrote_header1 (channel_service cap lower c r a disc)); split; intro W; try discriminate; exact H.
+Qed.
+
+Theorem escape_partial c r a disc e :
+  let res := channel_service cap lower c r a disc in
+  o_escaped res = Some e ->
+  (is_Exception e = false /\ o_raw res = Some e /\ o_served_500 res = false
+   /\ o_close res = false /\ o_next res = false)
+  \/ (e = UnicodeEncodeError /\ o_served_500 res = true).
+Proof.
+  cbn zeta. intro Hesc.
+  pose proof (service_outcome cap lower c r disc a) as H. unfold outcome_spec in H.
+  destruct (o_raw (channel_service cap lower c r a disc)) as [e0|] eqn:Eraw.
+  2: { destruct H as (H & _). congruence. }
+  destruct (exn_eqb e0 ClientDisconnected); [destruct H as (_ & _ & H & _); congruence|].
+  destruct (is_Exception e0) eqn:Eex; cbn [negb] in H.
+  - destruct (is_OSError e0 && negb (c_log_socket_errors c)); [destruct H as (_ & _ & H & _); congruence|].
+    destruct (o_wrote_header1 _); [destruct H as (_ & _ & H & _); congruence|].
+    destruct H as (H1 & _ & H3). right. split; auto.
+  - destruct H as (H1 & H2 & H3 & H4 & _). left. assert (e0 = e) by congruence. subst e0. repeat split; auto.
+Qed.
+
+End Corollaries.
